@@ -124,6 +124,17 @@ class Case:
         for nm, f in gns.items():
             out.pair(self.prefix + nm + "(N x CkHkW x L)", f(y, (N, C, H, W), kk, dd, ss, pp), fref)
             out.pair(self.prefix + nm + "(2-D)", f(y2, (N, C, H, W), kk, dd, ss, pp), fref)
+        # the documented option of computing the gather indices once and handing them back in: the indices stay what they were
+        # (nothing a later call does may move them), and both routines give the same answers with them
+        r_ = ct.im2col(x, kk, dd, ss, pp, pad, return_indices=True)
+        if isinstance(r_, tuple) and len(r_) == 2:
+            cols_i, idx_i = r_
+            out.pair(self.prefix + "im2col(return_indices=True) values", cols_i, cref)
+            out.pair(self.prefix + "col2im(col_indices=indices im2col returned)", ct.col2im(y2, (N, C, H, W), kk, dd, ss, pp, col_indices=idx_i), fref)
+            out.pair(self.prefix + "im2col(col_indices=the same indices) once more", ct.im2col(x, kk, dd, ss, pp, pad, col_indices=idx_i), cref)
+            out.pair(self.prefix + "col2im(col_indices=...) a second time", ct.col2im(y2, (N, C, H, W), kk, dd, ss, pp, col_indices=idx_i), fref)
+        else:
+            out.fact(self.prefix + "im2col(return_indices=True) returns (columns, indices)", False, "it returned %s" % type(r_).__name__)
         # sliding-window extractor and its placement routine
         win = ct.extract_windows(x, kk, ss, pp, dd, pad_value=pad)
         wref = objarr((lH, lW, N, C, k[0], k[1]))
